@@ -88,7 +88,7 @@ def lines(msg):
 
 # -- random module trees / relations -------------------------------------------------
 
-LEAF_NAMES = ["a", "b", "c", "d", "e", "x", "y", "z", "p", "q", "util", "core", "__init__", "ab", "a_b"]
+LEAF_NAMES = ["a", "b", "c", "d", "e", "x", "y", "z", "p", "q", "util", "core", "__init__", "ab", "a_b", "r", "m1", "v2"]
 
 
 def random_tree(rnd: random.Random, n_min=8, n_max=14, depth=4, root="r", names=LEAF_NAMES):
